@@ -736,8 +736,11 @@ def build(rec, seed):
     return obj, None
 
 
-def call_once(obj, method, a, kw, limit=2):
-    """returns outcome, and the list of mutated argument descriptions"""
+def call_once(obj, method, a, kw, limit=2, scramble=False):
+    """returns outcome, and the list of mutated argument descriptions.
+    scramble: after the answer has been recorded, the returned container is emptied in place, as a caller is free to do with a
+    result it owns (unless the library handed back one of the caller's own arguments) - a library that keeps the same object
+    (a cache, internal state) answers differently afterwards"""
     names = ['arg%d' % i for i in range(len(a))] + list(kw)
     vals = list(a) + [kw[k] for k in kw]
     before = [fp(v) for v in vals]
@@ -746,7 +749,13 @@ def call_once(obj, method, a, kw, limit=2):
         shown = [copy.deepcopy(v) for v in vals]
     except Exception:   # noqa
         shown = [None] * len(vals)
-    out = outcome(lambda: getattr(obj, method)(*a, **kw), limit)
+    r = common.call_impl(lambda: getattr(obj, method)(*a, **kw), limit)
+    out = ('ok', cstr(r[1])) if r[0] == 'ok' else ('err', common.E_NAME.get(r[1], str(r[1])))
+    if scramble and r[0] == 'ok' and isinstance(r[1], (list, dict, set)) and not any(r[1] is v for v in vals):
+        try:
+            r[1].clear()
+        except Exception:   # noqa
+            pass
     mutated = []
     for nm, v, b, s in zip(names, vals, before, shown):
         if fp(v) != b:
@@ -818,7 +827,7 @@ def run_case(key, seed, tmap=None, fresh_only=False):
         for m in mut:
             problems.append(('mutation', 'near-probe call changed its argument %s' % m))
     a1, kw1 = probe()
-    r1, mut = call_once(shared, method, a1, kw1)
+    r1, mut = call_once(shared, method, a1, kw1, scramble=True)
     for m in mut:
         problems.append(('mutation', 'probe call after %d earlier calls changed its argument %s' % (n_hist + len(variants[:3]), m)))
     if r1 == ('err', 'TIMEOUT'):
